@@ -61,6 +61,9 @@ def jobs(tier, seed, pool):
         r = Rng(seed, PROP, 'b', i)
         ver = r.choice(['FO3', 'SK', 'SSE', 'FO4', 'FO76'])
         init = {'settle': True, 'builder': {'version': ver, 'salt': r.below(1 << 30), 'nodes': r.below(3), 'shapes': [hist.shape_spec(r, ver, 'quick', name='s0')]}}
+        if ver == 'FO3' and r.chance(0.7):
+            init['builder']['shapes'][0]['legacy_texturing'] = True
+            init['settle'] = False   # (the stored file keeps the file names as written; settling would clean them at load)
         add(init, [r.below(1000) for _ in range(r.range(1, 3))], all_=r.chance(0.2), same_len=r.chance(0.5), raw=r.chance(0.5), kind='builder', resave=True)
     return out
 
